@@ -150,7 +150,7 @@ pub fn on_is_running(flag: &AtomicBool) {
         tt_snapshot_at_cut();
     }
     let (lo, hi) = (FORK_FROM.load(Ordering::Relaxed), FORK_TO.load(Ordering::Relaxed));
-    if lo != 0 && n >= lo && n <= hi && FORK_CHILD.load(Ordering::Relaxed) == 0 && !FORK_AT_CLOCK.load(Ordering::Relaxed) {
+    if lo != 0 && n >= lo && n <= hi && fork_selected(n) && FORK_CHILD.load(Ordering::Relaxed) == 0 && !FORK_AT_CLOCK.load(Ordering::Relaxed) {
         if fork_here(n) {
             flag.store(false, Ordering::Relaxed);
             tt_snapshot_at_cut();
@@ -173,6 +173,9 @@ extern "C" {
 
 static FORK_FROM: AtomicU64 = AtomicU64::new(0);
 static FORK_TO: AtomicU64 = AtomicU64::new(0);
+/// only polls n with n % FORK_STRIDE == FORK_PHASE are forked at (1, 0 = every poll)
+static FORK_STRIDE: AtomicU64 = AtomicU64::new(1);
+static FORK_PHASE: AtomicU64 = AtomicU64::new(0);
 /// 0 in the parent; in a child the poll number at which it was cut
 static FORK_CHILD: AtomicU64 = AtomicU64::new(0);
 static FORK_WRITES_AT_CUT: AtomicU64 = AtomicU64::new(0);
@@ -208,6 +211,15 @@ static FORK_AT_CLOCK: AtomicBool = AtomicBool::new(false);
 /// number of polls at which fork() itself failed (the sweep is incomplete then)
 pub fn fork_errors() -> u64 {
     FORK_ERRORS.load(Ordering::Relaxed)
+}
+
+fn fork_selected(n: u64) -> bool {
+    n % FORK_STRIDE.load(Ordering::Relaxed).max(1) == FORK_PHASE.load(Ordering::Relaxed)
+}
+
+pub fn fork_stride(stride: u64, phase: u64) {
+    FORK_STRIDE.store(stride.max(1), Ordering::Relaxed);
+    FORK_PHASE.store(phase % stride.max(1), Ordering::Relaxed);
 }
 
 pub fn fork_at_clock(on: bool) {
@@ -275,7 +287,7 @@ pub fn virtual_start(start: Instant) -> Instant {
     }
     let n = CLOCK_CALLS.fetch_add(1, Ordering::Relaxed) + 1;
     let (lo, hi) = (FORK_FROM.load(Ordering::Relaxed), FORK_TO.load(Ordering::Relaxed));
-    if lo != 0 && n >= lo && n <= hi && FORK_CHILD.load(Ordering::Relaxed) == 0 && FORK_AT_CLOCK.load(Ordering::Relaxed) {
+    if lo != 0 && n >= lo && n <= hi && fork_selected(n) && FORK_CHILD.load(Ordering::Relaxed) == 0 && FORK_AT_CLOCK.load(Ordering::Relaxed) {
         if fork_here(n) {
             // in the child every time limit expires at this very check
             CLOCK_FIRE_AT.store(n, Ordering::Relaxed);
